@@ -6,8 +6,13 @@ pub mod c15;
 pub mod c16;
 pub mod c17;
 pub mod c18;
+pub mod c18i;
+pub mod c19;
+pub mod c19x;
+pub mod c20;
 pub mod c28;
 pub mod c32;
+pub mod c33;
 pub mod c34;
 pub mod c35;
 pub mod c39;
@@ -22,6 +27,7 @@ pub mod pure;
 pub mod smoke;
 pub mod timelock;
 pub mod treasury;
+pub mod w1smoke;
 
 pub const REGISTRY: &[(&str, fn(&mut Ctx))] = &[
     ("C01", c01::run),
@@ -54,6 +60,10 @@ pub const REGISTRY: &[(&str, fn(&mut Ctx))] = &[
     ("C34", c34::run),
     ("C35", c35::run),
     ("C39", c39::run),
+    ("C19", c19::run),
+    ("C20", c20::run),
+    ("C33", c33::run),
+    ("W1", w1smoke::run),
     ("C36", timelock::run_c36),
     ("C37", treasury::run_c37),
     ("C41", c41::run),
